@@ -125,6 +125,58 @@ pub fn c14(c: &mut Collector, seed: u64, shard: u64, nshards: u64, thorough: boo
             }
         }
     }
+    // cross-kind exact-value coincidences: a comparison routed through a folded / packed numeric key
+    // (mate = BASE - d, kind << 16 + payload, ...) goes wrong only for Raw(+-BASE +- d).  Every mate
+    // distance is paired with the raw values at +-d around every power of two and power of ten.
+    let mut bases: Vec<i64> = Vec::new();
+    for bit in 8..=31u32 {
+        bases.push(1i64 << bit);
+        bases.push((1i64 << bit) - 1);
+    }
+    let mut ten = 100i64;
+    while ten <= 1_000_000_000 {
+        bases.push(ten);
+        bases.push(ten / 2);
+        ten *= 10;
+    }
+    bases.extend([30000, 32000, 20000, 100_000 - 1, 999_999, 9_999, 65535 * 2, 65536 * 3, i32::MAX as i64, i32::MAX as i64 / 2]);
+    for x in 0..=65535i64 {
+        if x as u64 % nshards != shard {
+            continue;
+        }
+        let (w, b) = (Score::WhiteMateIn(x as u16), Score::BlackMateIn(x as u16));
+        for &base in &bases {
+            for v in [base - x, base + x, -base + x, -base - x, x - base + 1, base - x - 1] {
+                if v < i32::MIN as i64 || v > i32::MAX as i64 {
+                    continue;
+                }
+                let r = Score::Raw(v as i32);
+                c.eval();
+                c.count("cross-kind-coincidence-pairs");
+                if !check_pair(c, w, r) || !check_pair(c, r, b) || !check_pair(c, r, w) || !check_pair(c, b, r) {
+                    return;
+                }
+            }
+        }
+    }
+    if shard == 0 {
+        for &base in &bases {
+            for mult in [1i64, 2, 3, 4] {
+                for v in [base * mult, -base * mult] {
+                    if v < i32::MIN as i64 || v > i32::MAX as i64 {
+                        continue;
+                    }
+                    let r = Score::Raw(v as i32);
+                    for sentinel in [Score::Min, Score::Max] {
+                        c.eval();
+                        c.count("cross-kind-coincidence-pairs");
+                        check_pair(c, sentinel, r);
+                        check_pair(c, r, sentinel);
+                    }
+                }
+            }
+        }
+    }
     // sort / binary_search of seeded vectors against key order
     let rounds = if thorough { 4000 } else { 300 };
     for round in 0..rounds {
